@@ -5067,6 +5067,7 @@ type eerr =
 type 'a outcome =
 | Done of 'a
 | Raise of eerr
+| Partial of eerr * 'a
 
 (** val obind : 'a1 outcome -> ('a1 -> 'a2 outcome) -> 'a2 outcome **)
 
@@ -5074,6 +5075,7 @@ let obind r f =
   match r with
   | Done a -> f a
   | Raise e -> Raise e
+  | Partial (e, _) -> Raise e
 
 type step0 =
 | SArg of nat
@@ -5309,7 +5311,10 @@ let rec index_of f = function
 (** val supports : expr -> bool **)
 
 let supports = function
-| ECmd (n0, _, _, _) -> str_eqb n0 s_item
+| ECmd (n0, _, b, _) ->
+  (||) (str_eqb n0 s_item) (match b with
+                            | [] -> false
+                            | _ :: _ -> true)
 | _ -> true
 
 (** val eq_expr_item : expr -> expr -> bool **)
@@ -5420,8 +5425,13 @@ let remove root thp ti =
 
 let replace_in root hp h thp ti x new0 =
   obind (expr_remove eq_expr_item hp h thp ti x) (fun kh ->
-    obind (expr_insert (snd kh) (Z.of_nat (fst kh)) new0) (fun h'' ->
-      put_o root hp h''))
+    match expr_insert (snd kh) (Z.of_nat (fst kh)) new0 with
+    | Done h'' -> put_o root hp h''
+    | Raise e ->
+      (match put root hp (snd kh) with
+       | Some r -> Partial (e, r)
+       | None -> Raise EBadCase)
+    | Partial (e, _) -> Raise e)
 
 (** val replace_via :
     expr -> path0 -> path0 -> nat -> expr list -> expr outcome **)
@@ -5846,7 +5856,9 @@ let rec run_loop fuel donor root l =
           (match o with
            | Done root' -> app (emit Z0 root') (run_loop f donor root' rest)
            | Raise e ->
-             app (emit (code_of e) root) (run_loop f donor root rest))
+             app (emit (code_of e) root) (run_loop f donor root rest)
+           | Partial (e, root') ->
+             app (emit (code_of e) root') (run_loop f donor root' rest))
         | None -> (Zneg (XO XH)) :: []))
 
 (** val run_edit : zs -> zs **)
